@@ -174,6 +174,10 @@ func PropFindValue(value interface{}) PropFindFunc {
 }
 
 func NewPropFindResponse(path string, propfind *PropFind, props map[xml.Name]PropFindFunc) (*Response, error) {
+	if (propfind.PropName != nil && propfind.AllProp != nil) || (propfind.Prop != nil && (propfind.PropName != nil || propfind.AllProp != nil)) {
+		return nil, HTTPErrorf(http.StatusBadRequest, "webdav: request has more than one of propname, allprop and prop")
+	}
+
 	resp := &Response{Hrefs: []Href{Href{Path: path}}}
 
 	if _, ok := props[ResourceTypeName]; !ok {
